@@ -1,6 +1,7 @@
 """C04 — container files are self-describing and round-trip under every codec,
 block size, metadata, schema form and stream kind."""
 import copy
+import itertools
 import io
 import os
 import tempfile
@@ -185,6 +186,86 @@ def run_scenarios(fa, res, codec, tier):
                     res.add(Violation("c04.read", "records-differ:readers-alive", f"with readers {order} open at once, reader {i} ({nm}) returned {short(got[i], 300)}, written {short(expd[nm], 300)}", info))
         except Exception as e:
             res.add(Violation("c04.read", f"read-raised:{type(e).__name__}:readers-alive", f"with readers {order} open at once: {type(e).__name__}: {e}", info))
+    # (3) parse - write - drop, many different schemas in a row: nothing may be remembered per (short-lived) schema object
+    import gc
+
+    produced = []
+    for n in range(24):
+        sch = {"type": "record", "name": "T%d" % n, "fields": [{"name": "k%d" % n, "type": "long"}, {"name": "s", "type": "string", "default": "d%d" % n}] +
+               ([{"name": "e", "type": {"type": "enum", "name": "E%d" % (n % 3), "symbols": ["A", "B%d" % n]}}] if n % 2 else [])}
+        recs3 = [dict({"k%d" % n: n * 1000 + i, "s": "v%d" % i}, **({"e": "B%d" % n} if n % 2 else {})) for i in range(3)]
+        parsed = fa.parse_schema(copy.deepcopy(sch))
+        fo = io.BytesIO()
+        try:
+            fa.writer(fo, parsed, copy.deepcopy(recs3), codec=codec, sync_marker=marker)
+        except Exception as e:
+            info = {"schema": sch, "records": recs3, "codec": codec, "sync_interval": 16000, "axis": "scenario:parse-write-drop"}
+            res.add(Violation("c04.write", f"write-raised:{type(e).__name__}:scenario", f"writer raised {type(e).__name__}: {e} | {short(info, 400)}", info))
+            continue
+        produced.append((sch, recs3, fo.getvalue()))
+        del parsed, fo
+        gc.collect()
+    for sch, recs3, data in produced:
+        n3, d3 = names.resolve(sch)
+        info = {"schema": sch, "records": recs3, "codec": codec, "sync_interval": 16000, "axis": "scenario:parse-write-drop"}
+        note_case(info)
+        keys.add(("churn", sch["name"]))
+        res.evals += 1
+        check_read(res, fa, "read", info, io.BytesIO(data), cont.expected(n3, d3, recs3), canon.canonical((n3, d3)), codec, {})
+    # (4) readers alive at the same time, created with different options: each keeps its own
+    US = {"type": "record", "name": "Box", "fields": [{"name": "u", "type": [{"type": "record", "name": "Cat", "fields": [{"name": "n", "type": "string"}]},
+                                                                                {"type": "record", "name": "Dog", "fields": [{"name": "n", "type": "string"}]}]}]}
+    fo = io.BytesIO()
+    fa.writer(fo, copy.deepcopy(US), [{"u": ("Dog", {"n": "rex"})}, {"u": ("Cat", {"n": "tom"})}], codec=codec, sync_interval=1, sync_marker=marker)
+    ufile = fo.getvalue()
+    optsets = [{}, {"return_record_name": True}, {"return_named_type": True}, {"return_record_name": True, "return_record_name_override": True}]
+    alone = [list(fa.reader(io.BytesIO(ufile), **o)) for o in optsets]
+    for ctor in ("reader", "block_reader"):
+        for i, j in itertools.permutations(range(len(optsets)), 2):
+            info = {"schema": US, "records": [], "codec": codec, "sync_interval": 1, "axis": f"scenario:readers-alive-options-{ctor}-{i}-{j}"}
+            note_case(info)
+            keys.add(("alive-options", ctor, i, j))
+            res.evals += 1
+            try:
+                mk = (lambda o: fa.reader(io.BytesIO(ufile), **o)) if ctor == "reader" else (lambda o: fa.block_reader(io.BytesIO(ufile), **o))
+                ra = mk(optsets[i])
+                rb = mk(optsets[j])   # created before ra is consumed
+                ga = list(ra) if ctor == "reader" else [r for blk in ra for r in blk]
+                gb = list(rb) if ctor == "reader" else [r for blk in rb for r in blk]
+            except Exception as e:
+                res.add(Violation("c04.read", f"read-raised:{type(e).__name__}:readers-alive-options", f"{type(e).__name__}: {e} | {short(info, 200)}", info))
+                continue
+            if not (same(ga, alone[i]) and same(gb, alone[j])):
+                res.add(Violation("c04.read", "records-differ:readers-alive-options", f"{ctor}s created with {optsets[i]} and {optsets[j]} before either was consumed returned {short(ga, 200)} / {short(gb, 200)}; alone they return {short(alone[i], 200)} / {short(alone[j], 200)}", info))
+    # (5) writers alive at the same time on different streams, records submitted alternately
+    WS = [{"type": "record", "name": "Wa", "fields": [{"name": "a", "type": "long"}]}, {"type": "record", "name": "Wb", "fields": [{"name": "b", "type": "string"}, {"name": "c", "type": "int", "default": 3}]}]
+    wrecs = [[{"a": i * 100} for i in range(5)], [{"b": "s%d" % i, "c": i} for i in range(5)]]
+    for iv in (1, 40, 16000):
+        for pattern in ("create-create-alternate", "create-write-create-alternate"):
+            info = {"schema": WS, "records": wrecs, "codec": codec, "sync_interval": iv, "axis": f"scenario:writers-alive-{pattern}"}
+            note_case(info)
+            keys.add(("writers-alive", iv, pattern))
+            res.evals += 1
+            fos = [io.BytesIO(), io.BytesIO()]
+            try:
+                w0 = Writer(fos[0], copy.deepcopy(WS[0]), codec=codec, sync_interval=iv, sync_marker=marker)
+                start = 0
+                if pattern == "create-write-create-alternate":
+                    w0.write(copy.deepcopy(wrecs[0][0]))
+                    start = 1
+                w1 = Writer(fos[1], copy.deepcopy(WS[1]), codec=codec, sync_interval=iv, sync_marker=marker)
+                for i in range(5):
+                    if i >= start:
+                        w0.write(copy.deepcopy(wrecs[0][i]))
+                    w1.write(copy.deepcopy(wrecs[1][i]))
+                w1.flush()
+                w0.flush()
+            except Exception as e:
+                res.add(Violation("c04.write", f"write-raised:{type(e).__name__}:scenario", f"{type(e).__name__}: {e} | {short(info, 300)}", info))
+                continue
+            for k in (0, 1):
+                nk, dk = names.resolve(WS[k])
+                check_read(res, fa, "read", dict(info, axis=info["axis"] + f"-file{k}"), io.BytesIO(fos[k].getvalue()), cont.expected(nk, dk, wrecs[k]), canon.canonical((nk, dk)), codec, {})
     res.distinct = len(keys)
     res.sample({"scenarios": sorted(map(str, keys))[:4], "codec": codec})
     return res
